@@ -164,6 +164,9 @@ def case_percentile(case):
                 prev = (level, area, p)
             else:
                 prev = extract_percentile_contour(fa, grids["2d"], pct=pf) + (p,)
+        if not np.array_equal(fa, np.array(f, float).reshape(shape)):
+            v.append({"sub": "argument-modified", "sig": "argument-modified/contour", "msg": "extract_percentile_contour changed the caller's field f=%s to %s" % (list(f), fa.ravel().tolist())})
+            fa = np.array(f, float).reshape(shape)
         # scaling and 3-D input (p = 1/2 and 13/16)
         for pf in (0.5, 0.8125):
             l0, a0 = extract_percentile_contour(fa, grids["2d"], pct=pf)
@@ -179,6 +182,37 @@ def case_percentile(case):
             if (l3, a3) != (l0, a0):
                 v.append({"sub": "percentile-3d", "sig": "percentile-3d", "msg": "f=%s as level 1 of a 3-D field: (%r, %r) vs 2-D (%r, %r)" % (list(f), l3, a3, l0, a0)})
     return {"v": v[:6], "nt": n, "key": core.canon(case), "n": n}
+
+
+def case_sparse_generic(case):
+    """generic (not exactly representable) positive values next to exact zeros: at p = 1 the contour is the support of the
+    field - its area is the number of non-zero cells times the cell area and its level the smallest non-zero value; scaling
+    the field scales the level and keeps the area; the field itself comes back untouched"""
+    from bldfm.plotting import extract_percentile_contour
+
+    rng = core.case_rng(case["seed"], "c20-sparse")
+    v = []
+    n = 0
+    for k in range(40):
+        ny, nx = int(rng.integers(3, 9)), int(rng.integers(3, 9))
+        f = rng.random((ny, nx)) * 10.0 ** rng.integers(-6, 4)
+        f[rng.random((ny, nx)) < rng.uniform(0.2, 0.8)] = 0.0
+        if not f.any():
+            continue
+        y, x = np.arange(ny) * 7.0, np.arange(nx) * 3.0
+        Y, X = np.meshgrid(y, x, indexing="ij")
+        keep = f.copy()
+        support = int((f > 0).sum())
+        minpos = float(f[f > 0].min())
+        for s in (1.0, 3.0, 1.0 / 3.0, 1e-5):
+            lev, area = extract_percentile_contour(f * s, (X, Y, np.zeros((ny, nx))), pct=1.0)
+            n += 1
+            if area != support * 21.0 or not np.isclose(lev, minpos * s, rtol=1e-12, atol=0):
+                v.append({"sub": "percentile-full", "sig": "percentile-full", "msg": "field %dx%d with %d non-zero cells (values ~%.1e) scaled by %g, p=1: level %r area %r; the support has area %r and smallest value %r" % (ny, nx, support, float(f.max()), s, lev, area, support * 21.0, minpos * s)})
+                break
+        if not np.array_equal(f, keep):
+            v.append({"sub": "argument-modified", "sig": "argument-modified/contour", "msg": "extract_percentile_contour changed the caller's field"})
+    return {"v": v[:5], "nt": n, "key": core.canon(case), "n": n}
 
 
 def case_builtin(case):
@@ -279,6 +313,7 @@ def run(ctx):
         pc += [{"shape": [3, 3], "fvals": [0, 1, 2], "slice": [lo, lo + 200]} for lo in range(0, 3**9, 200)]
     ctx.run_cases(case_percentile, pc, sub="percentile", chunksize=1)
     ctx.run_cases(case_builtin, [{"seed": ctx.seed + k} for k in range(8)], sub="built-in base functions")
+    ctx.run_cases(case_sparse_generic, [{"seed": ctx.seed + k} for k in range(16)], sub="support-at-p=1")
     ctx.rule = (
         "rescale: complete product of all f in {0,1/4,1,5/2}^(2x2) x all g in {0,1,2,3}^(2x2) (thorough: + all {0,1,3}^(2x3) x {0,1,2}^(2x3)) x 3 dtype pairs, + 4 monotone transforms and all 24 cell permutations on tie-free g; "
         "percentile: all non-zero f in {0,1,2,4}^(2x2) and {0,1,3}^(2x3) (thorough: + {0,1,2}^(3x3)) x p in {k/16} U exact cumulative fractions x 1-D/2-D coordinates, + scalings and 3-D input; "
